@@ -339,7 +339,7 @@ func init() {
 		Assume: []string{"the race detector's happens-before analysis for the race lane"},
 		Plan: func(tier string) []core.Lane {
 			if tier == "thorough" {
-				return []core.Lane{{Lane: "plain", Cases: 60000, Shards: 16, TimeoutS: 3600}, {Lane: "race", Cases: 8000, Shards: 16, TimeoutS: 3600}}
+				return []core.Lane{{Lane: "plain", Cases: 180000, Shards: 16, TimeoutS: 7200}, {Lane: "race", Cases: 20000, Shards: 16, TimeoutS: 3600}}
 			}
 			return []core.Lane{{Lane: "plain", Cases: 3200, Shards: 16, TimeoutS: 1200}, {Lane: "race", Cases: 480, Shards: 16, TimeoutS: 1200}}
 		},
